@@ -16,7 +16,7 @@ pub static PROP: Prop = Prop {
     rule: "cases = (input, list, mode subset, macro, FNC1, ECI none or 0..=999999) through DataMatrixBuilder::encode_eci and data::encode_data; oracle = size is a member of the list, codeword counts equal ISO/IEC 16022 Table 7 / ISO 21471, and the independent reference decoder (strict on codeword ranges, latches only in ASCII context, Base256 length fields, exact consumption, first pad 129 then 253-state pads reached in ASCII mode) decodes the capacity-long stream to the input with the requested macro / FNC1 / ECI headers; non-trivial = stream has >= 1 latch OR ends in an end-of-data form (no pad and last segment not plain ASCII, or implicit ASCII tail) OR has >= 2 pad codewords; distinct by (input, configuration)",
     assumptions: &["reference decoder R1 transcribed from ISO/IEC 16022 5.2; it accepts a dangling shift before an unlatch / symbol end and a lone unlatch in the last position (practice differs), everything else is strict"],
     extra: super::no_extra,
-    fuzz_runs: 50000,
+    fuzz_runs: 200000,
 };
 
 pub fn check(c: &EncCase) -> Verdict {
